@@ -2,7 +2,8 @@
 
 DUT: luna.gateware.interface.i2c.I2CInitiator (with its I2CBusDriver) inside a small wrapper that models
      the open-drain bus: line = (initiator releases) AND (target releases), for SCL and SDA.  Configurations:
-     period_cyc 8..40, clk_stretch True/False, open-drain SCL pad (I2CBus) or push-pull SCL-only pad.
+     period_cyc 4..255 (mostly 8..40), clk_stretch True/False, open-drain SCL pad or push-pull SCL-only pad, pads
+     given as a record with scl/sda (I2CBus) or as an object with scl_t/sda_t members.
 
 Workload: 10..22 operations per case: realistic transfers (start, address write, data writes / repeated
      start, reads with ack, last read with nak, stop) mixed with arbitrary operation sequences (read or write
@@ -16,7 +17,9 @@ Workload: 10..22 operations per case: realistic transfers (start, address write,
      the early part of the SCL low phase, the real bit at the latest one cycle before it lets SCL rise),
      releases SDA for the initiator's bits, and stretches SCL after any falling edge (also inside start and
      stop) for 1..3 cycles (synchroniser scale), around a quarter period, 5..60 or occasionally 150 cycles.
-     The target changes SDA only while SCL is low and it never pulls SCL low while SCL is high.
+     The target changes SDA only while SCL is low and it never pulls SCL low while SCL is high - except the
+     "idle SCL low" cases: before some start/stop strobes SCL is pulled low from outside while the initiator is
+     idle and released 3..40 cycles after the strobe (reaches the block's SCL-low branches in IDLE).
 
 Oracle (I2C-bus specification UM10204, from the resolved lines and the initiator's own drive m_sda):
   * an operation is accepted iff its strobe is sampled together with busy = 0;
@@ -60,14 +63,16 @@ RULE = ("case = (period_cyc 8..40, clk_stretch, SCL pad kind, 10..22 operations 
 REQUIRED_BINS = ["op_start", "op_stop", "op_write", "op_read", "repeated_start", "start_on_idle_bus", "stop_after_read_ack",
                  "stop_on_idle_bus", "write_acked", "write_nacked", "read_ack", "read_nak", "stretch_1_3", "stretch_quarter",
                  "stretch_long", "stretch_in_data_bit", "stretch_in_ack_bit", "stretch_in_start_or_stop", "late_target_data",
-                 "spurious_strobe_while_busy", "gap_0", "clk_stretch_off", "pushpull_scl", "period_8", "period_ge_32",
+                 "spurious_strobe_while_busy", "gap_0", "clk_stretch_off", "pushpull_scl", "period_8", "period_ge_32", "period_lt_8", "period_gt_40",
+                 "pads_t_style", "idle_scl_low_start_judged", "idle_scl_low_stop_judged",
                  "write_without_start", "data_scrambled_after_strobe", "strobe_first_cycle_busy_low", "zero_gap_write_after_start",
                  "zero_gap_start_after_write", "zero_gap_start_after_stop", "zero_gap_stop_after_start", "zero_gap_read_after_read", "zero_gap_start_after_start", "read_data_msb_lsb_differ", "write_data_msb_lsb_differ"]
 REQUIRED_EVENTS = ["ops_accepted", "ops_completed", "scl_rising_edges", "write_bits_checked", "read_bits_checked",
                    "ack_o_checked", "data_o_checked", "start_conditions", "stop_conditions", "high_phases_checked",
                    "idle_cycles_checked", "sda_high_cycles_checked"]
-ASSUMPTIONS = ["target changes SDA only while SCL is low and >= 1 cycle before SCL can rise; it only holds SCL low after a falling edge",
-               "period_cyc >= 8; one strobe at a time while busy is low; data_i/ack_i valid in the strobe cycle",
+ASSUMPTIONS = ["SCL pulled low from outside while the initiator is idle is judged only for start with SDA high and stop with SDA driven low by the initiator (wait for SCL, then move SDA); the other combinations are counted as unjudged",
+               "target changes SDA only while SCL is low and >= 1 cycle before SCL can rise; it only holds SCL low after a falling edge",
+               "one strobe at a time while busy is low; data_i/ack_i valid in the strobe cycle",
                "no clock stretching by the target when the initiator is built with clk_stretch=False or an output-only SCL pad"]
 
 
@@ -76,13 +81,19 @@ def run_case(rng, tier, res):
     from amaranth.hdl.rec import Record, DIR_FANIN, DIR_FANOUT
     from luna.gateware.interface.i2c import I2CBus, I2CInitiator
 
-    period = rng.choice([8, 8, 8, 9, 10, 12, 13, 16, 16, 20, 24, 30, 32, 37, 40, rng.randint(8, 40)])
+    period = rng.choice([8, 8, 8, 9, 10, 12, 13, 16, 16, 20, 24, 30, 32, 37, 40, rng.randint(8, 40),
+                         rng.choice([4, 5, 6, 7]), rng.choice([4, 5, 6, 7]), rng.choice([4, 6, 7]),
+                         rng.choice([48, 64, 100, 127, 255]), rng.choice([41, 44, 48, 63, 64, 65]), rng.choice([41, 42, 45, 50])])
     q = period // 4
     r = rng.random()
     pushpull = r < 0.16
     clk_stretch = (r >= 0.31) if not pushpull else (rng.random() < 0.5)
     can_stretch = clk_stretch and not pushpull
-    res.bin("period_8" if period == 8 else "period_ge_32" if period >= 32 else "period_mid")
+    res.bin("period_lt_8" if period < 8 else "period_8" if period == 8 else "period_gt_40" if period > 40 else
+            "period_ge_32" if period >= 32 else "period_mid")
+    t_style = rng.random() < 0.3          # pads object with scl_t / sda_t members instead of scl / sda
+    if t_style:
+        res.bin("pads_t_style")
     if not clk_stretch:
         res.bin("clk_stretch_off")
     if pushpull:
@@ -90,11 +101,21 @@ def run_case(rng, tier, res):
 
     class Harness(Elaboratable):
         def __init__(self):
-            if pushpull:
-                self.pads = Record([("scl", [("o", 1, DIR_FANOUT)]),
-                                    ("sda", [("i", 1, DIR_FANIN), ("o", 1, DIR_FANOUT), ("oe", 1, DIR_FANOUT)])])
+            tri = [("i", 1, DIR_FANIN), ("o", 1, DIR_FANOUT), ("oe", 1, DIR_FANOUT)]
+            scl_layout = [("o", 1, DIR_FANOUT)] if pushpull else tri
+            if t_style:
+                class _Pads:
+                    pass
+                self.pads = _Pads()
+                self.pads.scl_t = Record(scl_layout, name="scl_t")
+                self.pads.sda_t = Record(tri, name="sda_t")
+                self.p_scl, self.p_sda = self.pads.scl_t, self.pads.sda_t
+            elif pushpull:
+                self.pads = Record([("scl", scl_layout), ("sda", tri)])
+                self.p_scl, self.p_sda = self.pads.scl, self.pads.sda
             else:
                 self.pads = I2CBus()
+                self.p_scl, self.p_sda = self.pads.scl, self.pads.sda
             self.dut = I2CInitiator(self.pads, period, clk_stretch)
             self.tgt_scl = Signal(init=1)
             self.tgt_sda = Signal(init=1)
@@ -110,15 +131,15 @@ def run_case(rng, tier, res):
         def elaborate(self, platform):
             m = Module()
             m.submodules.dut = self.dut
-            p = self.pads
+            scl_p, sda_p = self.p_scl, self.p_sda
             d = self.dut
             for i_, port in enumerate([d.start, d.stop, d.write, d.read]):
                 m.d.comb += port.eq(self.s[i_] | (self.w[i_] & ~d.busy))
             if pushpull:
-                m.d.comb += [self.m_scl.eq(p.scl.o), self.scl.eq(self.m_scl)]
+                m.d.comb += [self.m_scl.eq(scl_p.o), self.scl.eq(self.m_scl)]
             else:
-                m.d.comb += [self.m_scl.eq(p.scl.o | ~p.scl.oe), self.scl.eq(self.m_scl & self.tgt_scl), p.scl.i.eq(self.scl)]
-            m.d.comb += [self.m_sda.eq(p.sda.o | ~p.sda.oe), self.sda.eq(self.m_sda & self.tgt_sda), p.sda.i.eq(self.sda)]
+                m.d.comb += [self.m_scl.eq(scl_p.o | ~scl_p.oe), self.scl.eq(self.m_scl & self.tgt_scl), scl_p.i.eq(self.scl)]
+            m.d.comb += [self.m_sda.eq(sda_p.o | ~sda_p.oe), self.sda.eq(self.m_sda & self.tgt_sda), sda_p.i.eq(self.sda)]
             return m
 
     h = Harness()
@@ -153,7 +174,8 @@ def run_case(rng, tier, res):
         op = {"kind": kind, "gap": rng.choice([0, 0, 0, 1, 2, rng.randint(0, 2 * q + 2)]),
               "stretch": [stretch_len() for _ in range(11)],
               "delay": [rng.random() for _ in range(11)], "garbage": [rng.choice(["none", "compl", "rand"]) for _ in range(11)],
-              "spurious": rng.random() < 0.5, "comb": rng.random() < 0.3, "spur_at": rng.randint(1, 7), "scramble": rng.random() < 0.7}
+              "spurious": rng.random() < 0.5, "comb": rng.random() < 0.3,
+              "idle_low": (rng.randint(3, 40) if (can_stretch and kind in ("start", "stop") and rng.random() < (0.45 if kind == "stop" else 0.2)) else 0), "spur_at": rng.randint(1, 7), "scramble": rng.random() < 0.7}
         if kind == "write":
             op["data"] = byte()
             op["tack"] = rng.random() < 0.7          # target acknowledges
@@ -164,7 +186,7 @@ def run_case(rng, tier, res):
         return op
 
     ops = []
-    nops = rng.randint(10, 22)
+    nops = rng.randint(10, 22) if period <= 40 else rng.randint(4, 8) if period <= 100 else rng.randint(3, 5)
     while len(ops) < nops:
         x = rng.random()
         if x < 0.45:
@@ -216,7 +238,7 @@ def run_case(rng, tier, res):
         "stats": {"w_str": 0, "r_str": 0, "rep": 0},
         "spur_live": False,
         "bus_free": True,         # no START since the last STOP (as far as the lines show)
-        "last_kind": None, "last_ack": None,
+        "last_kind": None, "last_ack": None, "idle_low_now": 0,
     }
 
     def bits_msb(x):
@@ -245,6 +267,9 @@ def run_case(rng, tier, res):
         g = b.get
         ctx = "op#%d %s accepted cyc=%d done cyc=%d period=%d stretch=%s" % (op["i"], k, op["t_acc"], cyc, period, op["stretch"][:10])
         if op["bad"]:
+            return
+        if op["idle_low_unjudged"]:
+            res.unjudged += 1
             return
         if k == "start":
             if op["starts"] != 1 or op["stops"] != 0:
@@ -442,6 +467,13 @@ def run_case(rng, tier, res):
                         res.bin("stop_on_idle_bus")
                     elif st["last_kind"] == "read" and st["last_ack"]:
                         res.bin("stop_after_read_ack")
+                # SCL held low by somebody else while the initiator is idle (not a legal clock stretch): the statement
+                # decides only the cases in which waiting for SCL and then moving SDA yields the requested condition
+                low = bool(st["idle_low_now"])
+                new["idle_low_unjudged"] = low and not ((kind == "start" and m_sda == 1 and sda == 1) or (kind == "stop" and m_sda == 0))
+                if low and not new["idle_low_unjudged"]:
+                    res.bin("idle_scl_low_%s_judged" % kind)
+                st["idle_low_now"] = 0
                 st["op"] = new
                 st["next_i"] = i + 1
                 res.event("ops_accepted")
@@ -557,6 +589,11 @@ def run_case(rng, tier, res):
                     res.bin("gap_0")
                 for _ in range(o["gap"]):
                     yield
+                if o["idle_low"] and attempts == 0 and b.get(h.scl):
+                    st["hold_scl_until"] = b.cycle + 100000
+                    st["idle_low_now"] = o["idle_low"]
+                    for _ in range(max(4, q + 2)):
+                        yield
                 st["strobed"] = i
                 b.set(sig_of[o["kind"]], 1)
                 if o["kind"] == "write":
@@ -570,6 +607,8 @@ def run_case(rng, tier, res):
                     b.set(dut.ack_i, rng.randint(0, 1) if o["kind"] != "read" else 1 - o["ack"])
                     res.bin("data_scrambled_after_strobe")
                 if st["op"] is not None and st["op"]["i"] == i:
+                    if o["idle_low"] and st["hold_scl_until"] > b.cycle + 50000:
+                        st["hold_scl_until"] = b.cycle + o["idle_low"]
                     break
                 # busy was high again at the strobe edge although it had been seen low: not an acceptance; try again
                 attempts += 1
